@@ -11,7 +11,7 @@ import (
 // Value domain. Concrete heap and pointers; symbolic leaves.
 //   bool | Sym(Bool term)          Go bool
 //   Int  | Sym(BV term)            Go integers (bit pattern normalised to the static type)
-//   float64                        Go floats (concrete only)
+//   float64 | SymF(FP term)        Go float64 (float32 concrete only)
 //   string | *SStr | *FD           Go strings (concrete, rope with symbolic bytes/atoms, finite domain)
 //   *Struct, *Array                aggregates by value (copied on load/store)
 //   Pointer, Slice, Iface, *Closure, *MapObj, Tuple, Opaque, *Native
@@ -20,6 +20,9 @@ type Value interface{}
 type Int struct{ v uint64 }
 
 type Sym struct{ t *Term }
+
+// SymF is a symbolic float64: a term of floating-point sort (term.go, IEEE-754 binary64 fragment).
+type SymF struct{ t *Term }
 
 type Struct struct{ f []Value }
 type Array struct{ e []Value }
